@@ -142,6 +142,8 @@ def scenarios(ctx, tier, trace_dir=None):
         if rc in (0, 1) and s is not None:
             break
         if rc == 4 and results:
+            if sum(1 for r in results if r.get("problems")) >= 8:
+                break   # enough evidence: every further failing scenario costs a deadline and a fresh process
             start = results[-1]["scenario"]["id"] + 1
             continue
         if begun is not None and ("panic:" in out or "fatal error:" in out or "SIGSEGV" in out):
